@@ -2,7 +2,7 @@
 Require Import SF.Prelude SF.PySlice SF.Dtype SF.PyDyn SF.Blocks SF.UpdateSpec SF.BlocksUpdate.
 Require Import Gen.Gen_util Proofs.SliceFacts Proofs.AscSlice.
 Require Import Proofs.UpdateLists Proofs.BlocksUpdateKey Proofs.BlocksDrop Proofs.BlocksMask.
-Require Import Proofs.BlocksAstype Proofs.BlocksAssign Proofs.BlocksInsert.
+Require Import Proofs.BlocksAstype Proofs.BlocksAssign Proofs.BlocksInsert Proofs.BlocksBloc.
 (* non-trivial instances of the implications below (hypotheses satisfiable): Proofs/C08Examples.v *)
 Require Proofs.C08Examples.
 
@@ -113,3 +113,25 @@ Theorem C08_keys_made_ascending_by_position : forall (k : ckey) (n : Z) (as_arra
   asc_key k n = asc_key_with true k n /\ ascending_key k n as_array = asc_key_with true k n.
 Proof. exact (fun k n a => conj (asc_key_normalises k n) (ascending_key_normalises k n a)). Qed.
 Print Assumptions C08_keys_made_ascending_by_position.
+
+(* ASSIGN.BLOC with an element / array value (_assign_from_bloc_by_unit), every block layout: the CELLS of the result
+   are exactly the specification's -- column j has value column j written at the rows its mask marks, nothing else moves
+   (cells_none: writing at no row is the identity). *)
+Theorem C08_bloc_unit_cells_any_layout : forall (A : Type) (newdt : dtype -> dtype)
+    (cells : Z -> list bool -> list A -> list A),
+  (forall j m c, existsb (fun b : bool => b) m = false -> cells j m c = c) ->
+  forall (t : tb A) (j : Z) (masks : list (list bool)), length masks = length (flatten t) ->
+  map snd (flatten (bloc_walk newdt cells j t masks)) = cells_zip cells j masks (map snd (flatten t)).
+Proof. exact @bloc_unit_cells. Qed.
+Print Assumptions C08_bloc_unit_cells_any_layout.
+
+(* ... and the DTYPES are the specification's (a column changes dtype only if one of its own cells is addressed) when every
+   block holds one column; with wider blocks the whole block is cast (Refuted/C08.v: C08_bloc_whole_block_cast_refuted). *)
+Theorem C08_bloc_unit_dtypes_single_column_blocks : forall (A : Type) (newdt : dtype -> dtype)
+    (cells : Z -> list bool -> list A -> list A),
+  (forall j m c, existsb (fun b : bool => b) m = false -> cells j m c = c) ->
+  forall (t : tb A) (j : Z) (masks : list (list bool)),
+  length masks = length (flatten t) -> Forall (fun b => length (b_cols b) = 1%nat) t ->
+  map fst (flatten (bloc_walk newdt cells j t masks)) = S_bloc_dtypes newdt masks (map fst (flatten t)).
+Proof. exact @bloc_unit_dtypes_single_columns. Qed.
+Print Assumptions C08_bloc_unit_dtypes_single_column_blocks.
